@@ -131,6 +131,9 @@ type Ctx struct {
 	wal *os.File
 }
 
+// maxSigsPerShard bounds the memory of the distinct-signature set (the reported distinct_nontrivial is then a lower bound)
+const maxSigsPerShard = 300000
+
 type Coord struct {
 	Family string
 	Index  int
@@ -162,7 +165,11 @@ func (c *Ctx) Eval(n int) {
 func (c *Ctx) Distinct(sig string) {
 	h := abs.Hash64(sig)
 	c.mu.Lock()
-	c.sigs[h] = struct{}{}
+	if len(c.sigs) < maxSigsPerShard {
+		c.sigs[h] = struct{}{}
+	} else if _, ok := c.sigs[h]; !ok {
+		c.counters["distinct_signatures_not_recorded_beyond_per_shard_cap"]++
+	}
 	c.mu.Unlock()
 }
 
